@@ -26,8 +26,9 @@ import Blots.Model.Format
 
   NOT proved (and not provable in this model): that the *whole* printed text, lexed character
   by character by the PEG grammar, yields the item sequence `items e` (identifiers, numbers,
-  keywords, white space, brackets), and anything about the width-driven layout functions
-  (`fmtImpl`, `fmtMulti`, … are `partial`).  Those are tied to the real code by the
+  keywords, white space, brackets), and that the width-driven layouts (`fmtImplP`, … — total
+  functions since the C09 work, but only comment preservation is proved about them) print a
+  text with the same items as the single-line printer.  Those are tied to the real code by the
   correspondence harness (model output = Rust output on generated programs) and by the
   model-free reparse oracle of `harness/src/props/c07.rs` (format, parse again, compare trees).
 -/
